@@ -187,7 +187,8 @@ Ltac sac_proj :=
        uh1 uh2 uh3 uh4 uh5
        uztwc uzfwc lztwc lzfpc lzfsc adimc alzfsc alzfpc qq
        i_adimc i_alzfpc i_alzfsc i_flobf i_uzfwc i_floin i_lztwc i_flosf i_roimp
-       c_pinc c_dinc c_duz c_dlzp c_dlzs l_v l_uztwc l_e1 l_e2 l_e3 l_e5 fst snd].
+       c_pinc c_dinc c_duz c_dlzp c_dlzs l_v l_uztwc l_e1 l_e2 l_e3 l_e5
+       pr_v0 pr_uztwc pr_pav pr_e1 pr_e2 pr_e3 pr_e5 fst snd].
 
 Ltac sac_proj_in H :=
   cbn [i_adimc i_alzfpc i_alzfsc i_flobf i_uzfwc i_floin i_lztwc i_flosf i_roimp] in H.
@@ -311,8 +312,17 @@ Lemma run_fst_cons {S I O} (step : S -> I -> S * O) s x r :
 Proof. cbn [run]. destruct (step s x) as [s1 o]. cbn [fst]. destruct (run step s1 r). reflexivity. Qed.
 
 (** evaluation of the land phase down to the call of [sac_pass] *)
+Ltac eval_pre :=
+  match goal with
+  | |- context [sac_pre ?p ?st ?io] =>
+      let E := fresh "E" in
+      eassert (E : sac_pre p st io = _)
+        by (unfold sac_pre, sac_init; sac_proj; runfold; repeat eval1; reflexivity);
+      rewrite E; clear E
+  end.
 Ltac eval_land :=
-  unfold sac_land, sac_init, pdn20, pdnor, half_pdnor; sac_proj; runfold; repeat eval1; sac_proj.
+  unfold sac_land; eval_pre; unfold sac_loop, pdn20, pdnor, half_pdnor; sac_proj; runfold;
+  repeat (progress (repeat eval1; sac_proj)).
 (** evaluation of [sac_pass] down to the iterated [sac_inc] *)
 Ltac eval_pass :=
   unfold sac_pass; sac_proj; runfold; cbn [truncZ afloor RArith]; repeat first [eval_ninc | eval1];
